@@ -82,7 +82,7 @@ PROPS = {
         "level": "proof",
         "units": ["nameparse", "labeliter", "sections", "optiter", "txtdata", "svcparams"],
         "vx_search": {"bin": "c01_search_small_names", "crate": "replay", "release": True,
-                      "what": "16.4 million (octet string of at most 7 octets over 8 parser-relevant octets, offset) pairs: ParsedName::parse, "
+                      "what": "16.4 million (octet string of at most 7 octets over 8 parser-relevant octets, offset) pairs and 3 million small messages (section counts 0..=2, body of at most 5 octets) walked twice: ParsedName::parse, "
                               "label iteration both ways, flattening, as_flat_slice, compose_len, equality and Label::iter_slice on the real "
                               "crate under a 10 s progress watchdog -- run only to find a concrete input for a failed Verus obligation"},
         "kani": [
